@@ -13,6 +13,7 @@ type omap struct {
 	keys   []value
 	vals   []value
 	kt     types.Type
+	mt     string // full map type as written at its make site
 	index  map[value]int // concrete indexable keys -> position
 	nsym   int           // number of keys with symbolic content
 	nplain int           // number of keys present in index
@@ -51,25 +52,44 @@ func rangeOrder(m *omap) []value {
 	keys := append([]value{}, m.keys...)
 	n := len(keys)
 	p := curPath()
-	if mapOrderFilter == "" || p == nil || n < 2 || n > 4 || m.kt == nil || !strings.Contains(m.kt.String(), mapOrderFilter) || p.perturbed >= mapOrderBudget {
+	if mapOrderFilter == "" || p == nil || n < 2 || n > 4 || m.kt == nil || p.perturbed >= mapOrderBudget || theExplorer.summary != nil {
+		return keys
+	}
+	match := false
+	kt := m.mt
+	if kt == "" {
+		kt = "map[" + m.kt.String() + "]"
+	}
+	for _, f := range strings.Split(mapOrderFilter, "|") {
+		if f != "" && (f == "*" || strings.Contains(kt, f)) {
+			match = true
+		}
+	}
+	if !match {
 		return keys
 	}
 	fact := 1
 	for i := 2; i <= n; i++ {
 		fact *= i
 	}
+	// which permutation the runtime picks for this range event is a free symbolic choice
+	// (DESIGN 2.4); at most mapOrderBudget events per path deviate from insertion order
 	v := p.fresh("ord", big.NewInt(0), big.NewInt(int64(fact-1)))
 	p.inputs = append(p.inputs, inputVar{v, "ord"})
+	val := fact - 1
 	for k := 0; k < fact-1; k++ {
-		if decide(tCmp("=", v, tInt(int64(k)))) {
-			if k > 0 {
-				p.perturbed++
-			}
-			return permute(keys, k)
+		if decideFree(tCmp("=", v, tInt(int64(k)))) {
+			val = k
+			break
 		}
 	}
-	p.perturbed++
-	return permute(keys, fact-1)
+	if p.modelOK && p.model != nil {
+		p.model[v.name] = big.NewInt(int64(val))
+	}
+	if val > 0 {
+		p.perturbed++
+	}
+	return permute(keys, val)
 }
 
 func isStringKey(kt types.Type) bool { return true }
